@@ -115,6 +115,12 @@ func treeUnsorted(dir string, repo repository.RepoData, blob []byte, et int) rep
 	return repository.Hash(h.String())
 }
 
+func commentPackBlob(author identity.Interface, msg string) []byte {
+	raw, err := json.Marshal(bug.NewAddCommentOp(author, 1_600_000_002, msg, nil))
+	hx.Must(err)
+	return []byte(fmt.Sprintf(`{"author":{"id":%q},"ops":[%s]}`, author.Id().String(), raw))
+}
+
 func emptyPackBlob(author identity.Interface, altered bool) []byte {
 	if altered {
 		return []byte(fmt.Sprintf(`{"author":{"id":%q}, "ops":[]}`, author.Id().String()))
@@ -210,6 +216,30 @@ func one(v Vec) (why string) {
 		parents = []repository.Hash{root}
 		th = treeNonRoot(w, emptyPackBlob(author, false), v.C.Et+shift)
 	}
+	// shape "chained": the commit under test is the second signed commit of its author in the bug, after a root the author wrote
+	// and signed, rightly, at the earliest time a key was in force - both are judged in the same read, each by the keys of its time
+	chained := false
+	if v.C.Shape == "chained" {
+		keysAt := func(t int) []int {
+			var ks []int
+			for _, ver := range v.Hist {
+				if ver.T <= t {
+					ks = ver.Keys
+				}
+			}
+			return ks
+		}
+		for rt := 1; rt < v.C.Et && !chained; rt++ {
+			if ks := keysAt(rt); len(ks) > 0 {
+				blob = packBlob(author, "root signed with a key in force", 1_600_000_000)
+				root, err := w.StoreSignedCommit(tree(w, blob, rt), key(ks[0]).PGPEntity())
+				hx.Must(err)
+				parents = []repository.Hash{root}
+				th = treeNonRoot(w, commentPackBlob(author, "the comment that was signed"), v.C.Et)
+				chained = true
+			}
+		}
+	}
 	var head repository.Hash
 	var err error
 	switch {
@@ -227,6 +257,10 @@ func one(v Vec) (why string) {
 			if v.C.Shape == "empty" {
 				blob2 = blob // the root is what it was: the commit without operations gets another (equivalent) pack
 				th2 = treeNonRoot(w, emptyPackBlob(author, true), v.C.Et+shift)
+			}
+			if chained {
+				blob2 = blob
+				th2 = treeNonRoot(w, commentPackBlob(author, "a comment put in place after signing"), v.C.Et)
 			}
 			r, err := gogit.PlainOpen(filepath.Join(dir, "W"))
 			hx.Must(err)
